@@ -468,9 +468,13 @@ func Conclude(root string, meta Meta, tier string, seed int64, m *Result, wall f
 		"wall_s":      wall,
 		"violations":  len(fresh) + int(m.ViolationsCut),
 	}
-	os.MkdirAll(filepath.Join(root, "evidence"), 0o755)
+	evDir := filepath.Join(root, "evidence")
+	if d := os.Getenv("VERIF_EVIDENCE_DIR"); d != "" {
+		evDir = d // runs against a scratch copy of the repository must not overwrite the evidence of /repo
+	}
+	os.MkdirAll(evDir, 0o755)
 	b, _ := json.MarshalIndent(ev, "", " ")
-	if err := os.WriteFile(filepath.Join(root, "evidence", meta.Property+".json"), append(b, '\n'), 0o644); err != nil {
+	if err := os.WriteFile(filepath.Join(evDir, meta.Property+".json"), append(b, '\n'), 0o644); err != nil {
 		fmt.Println("HARNESS-ERROR: cannot write evidence:", err)
 		return 2
 	}
